@@ -19,6 +19,10 @@ func (ex *Executor) execInstr(st *State, fr *Frame, ins ssa.Instruction) bool {
 		}
 		if obj := x.Object(); obj != nil {
 			if _, isVar := obj.(*types.Var); isVar {
+				if old, ok := fr.locals[obj.Name()]; ok && old.isAddr && !x.IsAddr && isFreeVarName(fr.fn, obj.Name()) {
+					// a captured / address-taken variable keeps denoting its cell (current value = load)
+					return true
+				}
 				v := ex.value(st, fr, x.X)
 				fr.locals[obj.Name()] = localRef{v: v, isAddr: x.IsAddr}
 			}
@@ -730,11 +734,11 @@ func (ex *Executor) execGo(st *State, fr *Frame, x *ssa.Go) bool {
 	} else if sc := x.Call.StaticCallee(); sc != nil {
 		ev.Fn = funcKeyOrName(sc)
 		if fv.Fn != nil {
-			ev.Args = append(ev.Args, fv.Fn.Bind...)
+			ev.Args = append(ev.Args, ex.capturedVals(st, fv.Fn.Bind)...)
 		}
 	} else if fv.Fn != nil {
 		ev.Fn = funcKeyOrName(fv.Fn.Fn)
-		ev.Args = append(ev.Args, fv.Fn.Bind...)
+		ev.Args = append(ev.Args, ex.capturedVals(st, fv.Fn.Bind)...)
 	} else {
 		ev.Fn = "?"
 	}
@@ -743,6 +747,35 @@ func (ex *Executor) execGo(st *State, fr *Frame, x *ssa.Go) bool {
 	}
 	st.events = append(st.events, ev)
 	return true
+}
+
+// capturedVals: go/ssa captures variables by address; in a `go` event the binding is shown as the value the
+// captured variable holds at the spawn (scalar cells only; other bindings stay pointers).
+func (ex *Executor) capturedVals(st *State, binds []Val) []Val {
+	var out []Val
+	for _, b := range binds {
+		if b.Ty != nil && b.T != nil {
+			if _, isPtr := b.Ty.Underlying().(*types.Pointer); isPtr {
+				if p := ex.ptrOf(b); p.Kind == PCell && !isStruct(p.Elem) && !isBigIntPtr(types.NewPointer(p.Elem)) {
+					if _, isArr := p.Elem.Underlying().(*types.Array); !isArr {
+						out = append(out, ex.load(st, b))
+						continue
+					}
+				}
+			}
+		}
+		out = append(out, b)
+	}
+	return out
+}
+
+func isFreeVarName(fn *ssa.Function, name string) bool {
+	for _, v := range fn.FreeVars {
+		if v.Name() == name {
+			return true
+		}
+	}
+	return false
 }
 
 func funcKeyOrName(fn *ssa.Function) string {
